@@ -782,7 +782,7 @@ def m_vec_drain(it, argv, text):
 _orig_vec_index = S.m_vec_index
 
 
-@model('<Vec as Index>::index', '<slice as Index>::index', '<Vec as IndexMut>::index_mut', 'Index::index')
+@model('<Vec as Index>::index', '<slice as Index>::index', '<Vec as IndexMut>::index_mut', 'Index::index', 'IndexMut::index_mut')
 def m_vec_index2(it, argv, text):
     base = argv[0]
     d = base
